@@ -22,6 +22,18 @@ def main(argv=None):
         seed = 0
     from .model import Model, AnalysisError
     from .px_core import Budget
+    # the rule part of a check is bounded in time (a change that makes a thousand members "writers" can blow up the path
+    # exploration): better an explicit analysis failure than a check that never comes back
+    import signal
+    limit = int(os.environ.get("NIXSA_TIME_LIMIT", "1200"))
+
+    def _timeout(signum, frame):
+        print("ANALYSIS-ERROR property=%s the rules did not finish within %d s on this tree (path explosion); no verdict" % (prop, limit))
+        sys.stdout.flush()
+        os._exit(2)
+    if limit > 0 and hasattr(signal, "SIGALRM"):
+        signal.signal(signal.SIGALRM, _timeout)
+        signal.alarm(limit)
     from .report import Reporter
     try:
         mod = importlib.import_module("rules." + prop.lower())
@@ -41,6 +53,8 @@ def main(argv=None):
         else:
             only = None
         mod.run(M, rep, tier, only)
+        if hasattr(signal, "SIGALRM"):
+            signal.alarm(0)
         if tier == "thorough" and not a.replay and not os.environ.get("NIXSA_EVIDENCE_DIR"):
             from . import selfcheck
             selfcheck.run(prop, mod, rep)
